@@ -1415,6 +1415,13 @@ impl<T> Queries<T> {
     }
 }
 
+//============ Verification hook =============================================
+
+// Kani harnesses for the private `Queries` type live outside the repository.
+#[cfg(kani)]
+#[path = "/verif/kani/incrate/queries.rs"]
+mod verif_kani;
+
 //============ Tests =========================================================
 
 #[cfg(test)]
